@@ -161,6 +161,9 @@ type gprinter struct {
 	all   bool // inputs: print the values of inactive union members too
 	// set when a field outside the active union member is non-zero (outputs only)
 	inactiveNonZero bool
+	// the same, restricted to values below a list element (always freshly allocated by Extract)
+	inList                int
+	inactiveNonZeroInList bool
 }
 
 func (g *gprinter) gstruct(mn *mnode, v reflect.Value) {
@@ -193,6 +196,9 @@ func (g *gprinter) gstruct(mn *mnode, v reflect.Value) {
 		if f.dv != 0xffff && (!hasWhich || uint64(f.dv) != which) && !g.all {
 			if !fv.IsZero() {
 				g.inactiveNonZero = true
+				if g.inList > 0 {
+					g.inactiveNonZeroInList = true
+				}
 			}
 			g.sb.WriteString(" _")
 			continue
@@ -264,9 +270,11 @@ func (g *gprinter) gval(mt *mtype, fv reflect.Value) {
 			return
 		}
 		fmt.Fprintf(&g.sb, " l %d", fv.Len())
+		g.inList++
 		for i := 0; i < fv.Len(); i++ {
 			g.gval(mt.elem, fv.Index(i))
 		}
+		g.inList--
 	case 'S':
 		g.gvalStruct(mt.node, fv)
 	case 'A':
@@ -324,4 +332,22 @@ func unmappedNonZero(mn *mnode, v reflect.Value) bool {
 		return false
 	}
 	return walk(v, nil)
+}
+
+// rootLists renders the list-typed fields of the root struct value (whatever Which says): the
+// slices a caller keeps when it copies an extracted value.
+func rootLists(mn *mnode, v reflect.Value) string {
+	g := &gprinter{}
+	for _, f := range mn.fields {
+		if !f.present || f.isGroup || f.typ.kind != 'L' {
+			continue
+		}
+		fv := fieldByPath(v, f.path, false)
+		if !fv.IsValid() {
+			continue
+		}
+		g.sb.WriteString(" " + f.name)
+		g.gval(f.typ, fv)
+	}
+	return g.sb.String()
 }
